@@ -270,6 +270,7 @@ namespace via
       field_line<MAX_LINE_LENGTH, MAX_WHITESPACE_CHARS, STRICT_CRLF> field_ {};
       bool       valid_ { false }; ///< true if the headers are valid
       bool       blank_cr_ { false }; ///< the CR of the blank line has been read
+      size_t     number_ { 0u };   ///< the number of header field lines
       size_t     length_ { 0u };   ///< the length of the message headers
 
     public:
@@ -285,6 +286,7 @@ namespace via
         field_.clear();
         valid_ = false;
         blank_cr_ = false;
+        number_ = 0;
         length_ = 0;
       }
 
@@ -296,6 +298,7 @@ namespace via
         field_.swap(other.field_);
         std::swap(valid_, other.valid_);
         std::swap(blank_cr_, other.blank_cr_);
+        std::swap(number_, other.number_);
         std::swap(length_, other.length_);
       }
 
@@ -322,11 +325,13 @@ namespace via
             return false;
 
           length_ += field_.length();
+          ++number_;
           add(field_.name(), field_.value());
           field_.clear();
 
+          // Note: counts the field lines, not the distinct field names
           if ((length_ > MAX_HEADER_LENGTH)
-           || (fields_.size() > MAX_HEADER_NUMBER))
+           || (number_ > MAX_HEADER_NUMBER))
             return false;
         }
 
